@@ -1,6 +1,6 @@
 (* C15 — Provision succeeds only within the caller's slippage tolerance.
    t is the tolerance in atomics of 10^-18 (Decimal), d = deposits, p = reserves as the guard sees them. *)
-From HT Require Import Base.Prelude Num.Arith Amm.Formulas Amm.Guards Proofs.SlippageProofs.
+From HT Require Import Base.Prelude Num.Arith Amm.Formulas Amm.Guards World.World Proofs.SlippageProofs Proofs.GuardSysProofs.
 
 (* success implies (d0/d1)(1-t) < p0/p1 + 2*10^-18 and symmetrically (cross-multiplied) *)
 Theorem C15_sound :
@@ -43,6 +43,20 @@ Example C15_nonvacuous :
   assert_slippage_tolerance (Some 10000000000000000) 1000 2000 100000 230000 = Err EMaxSlippage.
 Proof. split; vm_compute; reflexivity. Qed.
 
+(* system level: a provision that succeeds passed the guard on its own deposits and on the reserves as the
+   handler sees them, i.e. net of the caller's native deposit (cw20 reserves as observed); whatever other
+   actors did before is the universal quantifier over [w] *)
+Theorem C15_sys : forall w p ps c funds l0 n0 l1 n1 tol rcv w',
+  pair_provide w p ps c funds l0 n0 l1 n1 tol rcv = Ok w' ->
+  exists r0 r1 d0 d1 q0 q1,
+    asset_balance w (p_a0 ps) p = Ok r0 /\ asset_balance w (p_a1 ps) p = Ok r1 /\
+    deposit_of (p_a0 ps) l0 n0 l1 n1 = Ok d0 /\ deposit_of (p_a1 ps) l0 n0 l1 n1 = Ok d1 /\
+    (q0 = if asset_is_native (p_a0 ps) then r0 - d0 else r0) /\
+    (q1 = if asset_is_native (p_a1 ps) then r1 - d1 else r1) /\
+    assert_slippage_tolerance tol d0 d1 q0 q1 = Ok tt.
+Proof. exact pair_provide_guard. Qed.
+
+Print Assumptions C15_sys.
 Print Assumptions C15_sound.
 Print Assumptions C15_complete.
 Print Assumptions C15_over_100.
